@@ -23,7 +23,7 @@ CONFIG = dict(
         "stakes are non-negative big integers of at most 2^256 each",
         "the total weight of a set built through the plain builder is at most 2^31-1 (larger totals are rejected, see C11)",
     ],
-    level_more='Encodings are also decoded into objects and struct fields that already hold another set.',
+    level_more='Encodings are also decoded into objects and struct fields that already hold another set. The equal-weight constructor is called with repeated IDs, and now and then a set of 6000-14000 validators (an encoding above 64 KiB) is round-tripped.',
     units=[
         dict(test="TestC12Canonical", quick=60000, thorough=6400000, shards=16),
         dict(test="TestC12Big", quick=60000, thorough=6400000, shards=16),
